@@ -14,17 +14,30 @@ import vlib
 PROPERTY = "C04"
 LEAN_MODULES = ["TapkeeVerif.Props.C04"]
 LEAN_EXES = ["model_c04"]
-REQUIRED_THEOREMS_FINAL = [
+REQUIRED_THEOREMS = [
     "TapkeeVerif.Dijkstra.dijkstra_exact",
+    "TapkeeVerif.Dijkstra.allPairs_is_geodesic_matrix",
     "TapkeeVerif.Dijkstra.backends_agree",
+    "TapkeeVerif.Dijkstra.choice_covers_every_minimum",
     "TapkeeVerif.Dijkstra.diag_zero",
     "TapkeeVerif.Dijkstra.ge_direct",
     "TapkeeVerif.Dijkstra.le_edge",
-    "TapkeeVerif.Dijkstra.rows_independent",
     "TapkeeVerif.Dijkstra.fuel_suffices",
+    "TapkeeVerif.Dijkstra.landmark_row_eq_full_row_lazy",
+    "TapkeeVerif.Dijkstra.landmark_row_eq_full_row_partial",
+    "TapkeeVerif.Dijkstra.rows_independent",
+    "TapkeeVerif.Dijkstra.allPairs_schedule_independent",
     "TapkeeVerif.Dijkstra.isShortestPathMatrix_sound",
+    "TapkeeVerif.IsomapPre.center_eq_JAJ",
+    "TapkeeVerif.IsomapPre.isomap_is_cmds_partial",
+    "TapkeeVerif.IsomapPre.isomap_is_cmds_with_symmetrise",
 ]
-REQUIRED_THEOREMS = []
+# statements that are false of the code as it stands: the refutation (witness checked by the kernel) is the obligation
+# until the defect is repaired; then the full theorem replaces it (see Props/C04.lean)
+REFUTED_WHILE_OPEN = {
+    "F-LISOMAP-FLAG": "TapkeeVerif.Dijkstra.landmark_row_eq_full_row_refuted",
+    "F-ISOMAP-ASYM": "TapkeeVerif.IsomapPre.isomap_is_cmds_refuted",
+}
 BUILDS = ["pq", "fib"]
 THREADS = [1, 2, 3, 8, 16]
 
